@@ -10,6 +10,7 @@ Control::Stop arm of the control services and close/force_close/drop_sink reach 
 drop_payload; clear_queues clears waiters and in-flight entries. Liveness is not decided."""
 from facts import *
 from disp import *
+from symex import SymEx, skip_logging, term_has, term_str_v
 
 ST = 'io::IoDispatcherState'
 CONTROL_CALL = r'^ntex_service::PipelineBinding::<S, R>::call$'
@@ -324,7 +325,57 @@ def drain(F, R):
         R.ob('C07.drain', '%s|ControlService::call|forwards' % ver, len(fw) >= 1, 'the Stop notification is not forwarded to the application control service')
 
 
+def error_wakes(F, R):
+    """A handler error must wake the io dispatcher: handle_result returns true on every path where the
+    current item is Err (its callers notify the dispatcher on true), and the spawned response task
+    calls notify_dispatcher() on the true edge."""
+    b = F.one(r'^io::DispatcherState::<P, U>::handle_result$')
+    se = SymEx(b, F, call_model=skip_logging, loop_visits=1, max_paths=5000)
+    paths = [p for p in se.run() if p.end[0] == 'return']
+    R.ob('C07.error-wakes', 'handle_result|paths-enumerated', not se.truncated and len(paths) >= 6, '%d paths' % len(paths))
+    seen = set()
+    for p in paths:
+        is_err = None
+        for t, c in p.conds:
+            if t[0] == 'call' and t[1].endswith('Result::<T, E>::is_err'):
+                is_err = (c != ('eq', 0))
+            if t[0] == 'discr' and t[1] == ('arg', 2):
+                if c == ('eq', 1):
+                    is_err = True if is_err is None else is_err
+        head = None
+        for t, c in p.conds:
+            if t[0] == 'bin' and t[1] == 'Eq' and term_has(t, 'wrapping_sub'):
+                head = (c != ('eq', 0))
+        if is_err is not True:
+            continue
+        ret = p.ret
+        ok = ret is not None and ret[0] == 'const' and ret[1] == 1
+        ok = ok or (ret is not None and ret[0] == 'call' and ret[1].endswith('is_err'))
+        key = 'handle_result|item=Err|head=%s|returns-true' % head
+        if key in seen:
+            continue
+        seen.add(key)
+        R.ob('C07.error-wakes', key, ok, 'handle_result can return %s for a failed handler: the spawned response task then does not wake the io dispatcher, no Stop(Error) is delivered while other handlers are still running' % (term_str_v(ret) if ret else None))
+    R.ob('C07.error-wakes', 'handle_result|error-paths-seen', len(seen) >= 2, 'expected error paths for head and non-head positions, saw %s' % sorted(seen))
+    cs = F.one(r'^io::DispatcherInner::<P, C, U, E>::call_service::\{closure#0\}$')
+    hrs = [(bi, t) for bi, t in cs.calls_to(r'^io::DispatcherState::<P, U>::handle_result$')]
+    nts = [bi for bi, t in cs.calls_to(r'IoRef>::notify_dispatcher$')]
+    ok = bool(hrs) and bool(nts)
+    # the bool produced by handle_result is the branch condition guarding notify_dispatcher
+    sw = None
+    for sb in sorted(cs.live):
+        t = cs.blocks[sb]['term']
+        if t['k'] == 'switch' and any(sb in cs.reachable_after(h) for h, _ in hrs):
+            og = Origin(cs).of_operand(t['discr'])
+            if any(l[0] == 'call' and l[1].endswith('handle_result') for l in og):
+                zero = [tb for v, tb in t['targets'] if v == 0]
+                if zero and all(edge_dominates(cs, sb, t['otherwise'], n) for n in nts):
+                    sw = sb
+    R.ob('C07.error-wakes', 'call_service::spawned-task|true=>notify_dispatcher', ok and sw is not None, 'the spawned response task must call notify_dispatcher() exactly when handle_result returned true')
+
+
 def run(F, R):
+    error_wakes(F, R)
     poll, ps, regions, head = stop_once(F, R)
     reason_map(F, R, poll, ps)
     cancel_after_stop(F, R, poll, regions)
